@@ -447,9 +447,10 @@ func (w *world) mforced(kind string, n int) string {
 				visits++
 				if visits == 3 || visits == n/2 {
 					wdone := make(chan struct{})
+					newKey := n + visits
 					go func() {
 						defer close(wdone)
-						om.Set(n+visits, 1)
+						om.Set(newKey, 1)
 						om.Delete(k)
 					}()
 					deadline := time.Now().Add(2 * time.Second)
